@@ -269,6 +269,11 @@ func (bs *blockState) monAccess(keys []string, what string, ins ssa.Instruction)
 	if len(e.W.Specs.Monitors) == 0 {
 		return
 	}
+	if e.spec != nil && e.spec.Thread == "init" {
+		// `thread init`: the function initialises the monitor's state while no other thread uses it
+		// (a stated assumption, listed in the evidence): the guard discipline does not apply
+		return
+	}
 	for _, m := range e.W.Specs.Monitors {
 		if e.protectedSet == nil {
 			e.protectedSet = map[string]bool{}
